@@ -1049,7 +1049,12 @@ def gen_path_case(rng, flavour=None, thorough=False):
         parts = []
         ggn = method != 'gn_model_analytic'
         bands = [(191.4e12, 195.0e12)] + ([(186.6e12, 190.0e12)] if eq == 'multiband' else [])
-        for (lo, hi) in bands:
+        loads = [rng.choice(['none', 'one', 'two', 'many', 'many']) for _ in bands]
+        if eq != 'multiband' or all(x == 'none' for x in loads):
+            loads = ['many' if x == 'none' else x for x in loads] if eq == 'multiband' else ['any'] * len(bands)
+        for (lo, hi), load in zip(bands, loads):
+            if load == 'none':
+                continue                # an unlit band beside a lit one
             f = lo + rng.randint(0, 20) * 50e9
             sparse = ggn and ggn_mode != 'all'
             for k in range((3 if sparse else (rng.randint(2, 3) if thorough else 2)) if ggn
@@ -1059,6 +1064,10 @@ def gen_path_case(rng, flavour=None, thorough=False):
                     nch = rng.randint(2, 5)         # groups of several carriers
                 else:
                     nch = rng.randint(1, (4 if thorough else 3) if tiny else (6 if not thorough else 14))
+                if load in ('one', 'two'):
+                    nch = 1 if load == 'one' else 2         # a lone carrier / a pair in this band
+                    if k > 0:
+                        break
                 f_min = f + sw / 2
                 f_max = f_min + (nch - 1) * sw
                 if f_max + sw / 2 > hi:
@@ -1565,6 +1574,132 @@ def prim_factor(e):
     return arg
 
 
+def declared_bands(el):
+    """the bands an amplifier element declares it handles (its own, or those of its per-band amplifiers, in listing order)"""
+    amps = getattr(el, 'amplifiers', None)
+    if amps is not None:
+        return [(float(a.params.bands[0]['f_min']), float(a.params.bands[0]['f_max'])) for a in amps.values()]
+    bands = getattr(getattr(el, 'params', None), 'bands', None)
+    if type(el).__name__ == 'Edfa' and bands:
+        return [(float(bands[0]['f_min']), float(bands[0]['f_max']))]
+    return None
+
+
+def band_failures(el, b, a, where):
+    """demux -> amplify -> mux loses nothing: every channel that lies in a declared band of the (multiband) amplifier
+    comes out of it, whatever the number of bands, their listing order and the load of each band (0, 1, 2, many
+    carriers); nothing outside the declared bands does.  a = None: the element raised instead of returning."""
+    bands = declared_bands(el)
+    if bands is None:
+        return []
+    inb = np.zeros(len(b['f']), dtype=bool)
+    for lo, hi in bands:
+        inb |= (b['f'] - b['sw'] / 2 >= lo) & (b['f'] + b['sw'] / 2 <= hi)
+    fout = set(a['f'].tolist()) if a is not None else set()
+    out = []
+    lost = [float(f) for f, k in zip(b['f'], inb) if k and f not in fout]
+    if lost:
+        loads = [int(np.sum((b['f'] - b['sw'] / 2 >= lo) & (b['f'] + b['sw'] / 2 <= hi))) for lo, hi in bands]
+        out.append(('channel_lost', f'{where}: {len(lost)} channel(s) lying in a declared band did not come out '
+                                    f'(e.g. {lost[0] / 1e12:.4f} THz; carriers per declared band, in listing order: {loads}'
+                                    + ('; the element raised' if a is None else '') + ')'))
+    extra = [float(f) for f, k in zip(b['f'], inb) if not k and f in fout]
+    if extra:
+        out.append(('channel_out_of_band', f'{where}: a channel outside every declared band came out ({extra[0] / 1e12:.4f} THz)'))
+    return out
+
+
+BAND_PLAN = [('U', 182.0e12, 186.4e12), ('L', 186.5e12, 190.1e12), ('C', 191.2e12, 196.1e12), ('S', 196.2e12, 200.6e12)]
+
+
+def gen_multi_case(rng):
+    """a multiband amplifier declared with 2, 3 or 4 bands (S/C/L/U-like plans, any listing order) and a comb whose load
+    per band is 0, 1, 2 or many carriers in every combination (empty band first / middle / last, single-carrier bands),
+    sometimes with carriers in the gaps between the bands"""
+    nb = rng.choice([2, 2, 3, 3, 4])
+    plan = sorted(rng.sample(BAND_PLAN, nb), key=lambda x: x[1])
+    bands = []
+    for name, lo, hi in plan:
+        lo2, hi2 = lo + rng.choice([0.0, 50e9, 0.3e12]), hi - rng.choice([0.0, 50e9, 0.4e12])
+        bands.append([name, lo2, hi2, round(rng.uniform(12, 25), 2), rng.choice([0.0, 0.0, 1.0, 2.5])])
+    rng.shuffle(bands)
+    loads = [rng.choice(['none', 'one', 'two', 'many']) for _ in bands]
+    if rng.random() < 0.9 and all(x == 'none' for x in loads):
+        loads[rng.randrange(nb)] = rng.choice(['one', 'many'])
+    chs = []
+    for (name, lo, hi, _, _), load in zip(bands, loads):
+        n = {'none': 0, 'one': 1, 'two': 2, 'many': rng.randint(3, 8)}[load]
+        f = lo + rng.randint(1, 12) * 50e9
+        for _ in range(n):
+            sw, br = rng.choice(SLOTS[:6])
+            f += sw / 2
+            if f + sw / 2 > hi:
+                break
+            chs.append([f, sw, br, 1e-3 * 10 ** (rng.uniform(-25, 3) / 10)])
+            f += sw / 2 + rng.choice([0.0, 0.0, 50e9])
+    if rng.random() < 0.25:
+        # a carrier that no amplifier takes (in a gap between two bands / outside the plan)
+        chs.append([rng.choice([190.6e12, 181.0e12, 201.5e12]), 50e9, 32e9, 1e-4])
+    chs.sort()
+    noise = None
+    if chs and rng.random() < 0.7:
+        noise = [[10 ** (-rng.uniform(15, 45) / 10) for _ in chs], [10 ** (-rng.uniform(15, 45) / 10) for _ in chs]]
+    return {'kind': 'multi', 'bands': bands, 'chs': chs, 'noise': noise}
+
+
+_BASE_AMP = {}
+
+
+def multi_element(case):
+    """a real Multiband_amplifier whose per-band amplifiers are real Edfa objects declared on the generated bands, in the
+    listing order of the case"""
+    from gnpy.tools.json_io import network_from_json
+    from gnpy.core.elements import Multiband_amplifier
+    if 'm' not in _BASE_AMP:
+        topo = {'elements': [{'uid': 'A', 'type': 'Transceiver'}, {'uid': 'B', 'type': 'Transceiver'},
+                             {'uid': 'multiband amplifier', 'type': 'Multiband_amplifier',
+                              'type_variety': 'std_medium_gain_multiband',
+                              'amplifiers': [{'type_variety': v, 'operational': {'gain_target': 20.0, 'delta_p': 0,
+                                                                                 'out_voa': 0.0, 'tilt_target': 0.0}}
+                                             for v in ('std_medium_gain_C', 'std_medium_gain_L')]}],
+                'connections': [{'from_node': 'A', 'to_node': 'multiband amplifier'},
+                                {'from_node': 'multiband amplifier', 'to_node': 'B'}]}
+        net = network_from_json(topo, equipment('multiband'))
+        _BASE_AMP['m'] = [n for n in net.nodes() if isinstance(n, Multiband_amplifier)][0]
+    m = copy.deepcopy(_BASE_AMP['m'])
+    base = m.amplifiers['CBAND']
+    amps = {}
+    for name, lo, hi, g, voa in case['bands']:
+        a = copy.deepcopy(base)
+        a.uid = f'{name} band amplifier'
+        a.params.f_min, a.params.f_max = lo, hi
+        a.params.bands = [{'f_min': lo, 'f_max': hi}]
+        a.effective_gain = g
+        a.operational.gain_target = g
+        a.out_voa = voa
+        amps[name] = a
+    m.amplifiers = amps
+    return m
+
+
+def drive_multi(case):
+    """call the declared multiband amplifier on a real spectrum under the tracer"""
+    import logging
+    logging.disable(logging.CRITICAL)
+    el = multi_element(case)
+    si = _mk_si(case['chs'], case['noise'])
+    before = snap(si)
+    exc = None
+    with Tracer() as tr:
+        try:
+            with np.errstate(all='ignore'), warnings.catch_warnings():
+                warnings.simplefilter('ignore')
+                out = el(si)
+        except Exception as e:
+            exc, out = e, None
+    return {'calls': tr.calls, 'updates': [], 'si': out, 'el': el, 'before': before, 'exc': exc}
+
+
 def alias_failures(call):
     return [('aliasing', f'{call["kind"]} {call["uid"]} changed a spectrum it does not return: {d}') for d in call.get('alias', [])]
 
@@ -1608,6 +1743,7 @@ def path_oracle_c01(res):
         fin = set(c['before']['f'].tolist())
         if not set(a['f'].tolist()) <= fin or len(set(a['f'].tolist())) != len(a['f']):
             fails.append(('channel_records', f'{where}: channels created or duplicated by the element'))
+        fails += band_failures(c['el'], c['before'], a, where)
     res['out_of_scope'] = not scope
     if scope:
         fails += trx_identity_failures(res)
@@ -1659,6 +1795,8 @@ def build_cases(ctx, prop, n_hist, n_bad, nmax, maxops):
         cases.append(make_concrete(rng, gen_hist(rng, nmax if big else max(4, nmax // 3), maxops if big else max(4, maxops // 2))))
     for _ in range(n_bad):
         cases.append(make_concrete(rng, gen_hist(rng, min(nmax, 8), 6, malformed=True)))
+    for _ in range(max(20, n_hist // 3)):
+        cases.append(gen_multi_case(rng))
     return cases
 
 
@@ -1737,6 +1875,44 @@ def process_path(ctx, case, path_oracle_fn, sample_k, terms, meta):
     return True
 
 
+def process_multi(ctx, case, path_oracle_fn, terms, meta):
+    """one declared multiband amplifier: oracle on its single call, model replay of all its channels"""
+    rng = ctx.rng
+    if not case['chs']:
+        ctx.count('multi_empty_comb_skipped')
+        return
+    res = drive_multi(case)
+    el, b = res['el'], res['before']
+    loads = [int(np.sum((b['f'] - b['sw'] / 2 >= lo) & (b['f'] + b['sw'] / 2 <= hi))) for _, lo, hi, _, _ in case['bands']]
+    ctx.count('multi_cases')
+    ctx.count(f'multi_bands_{len(case["bands"])}')
+    for x in loads:
+        ctx.count('multi_band_load_' + ('0' if x == 0 else '1' if x == 1 else '2' if x == 2 else 'many'))
+    if loads and loads[0] == 0 and any(loads):
+        ctx.count('multi_empty_band_listed_first')
+    ctx.case(jcase(case), sum(1 for x in loads if x) >= 2 or (0 in loads and any(loads)))
+    jc = jcase(case)
+    if res['exc'] is not None:
+        ctx.count('multi_outcome_E:' + type(res['exc']).__name__)
+        for key, desc in band_failures(el, b, None, f'Multiband_amplifier ({type(res["exc"]).__name__}: {res["exc"]})'):
+            ctx.violation(key, desc, jc)
+        amps = listlit([f'({fql(lo)}, {fql(hi)}, [])' for _, lo, hi, _, _ in case['bands']])
+        terms.append(f'run_elem KMulti (PMulti {amps}) ' + listlit([chlit(c) for c in snap_chs(b)]) + ' None')
+        meta.append(('multi_exc', case, 'E:' + type(res['exc']).__name__))
+        return
+    for key, desc in path_oracle_fn(res):
+        ctx.violation(key, desc, jc)
+    for c in res['calls']:
+        try:
+            term, exp, prob, summ = elem_term(rng, c, 64)
+        except Exception as e:
+            ctx.count('elem_term_not_built_' + type(e).__name__)
+            ctx.corr_break('corr:harness.term_construction', f'{type(e).__name__}: {e}', jc)
+            continue
+        terms.append(term)
+        meta.append(('elem', case, c, exp, prob, summ))
+
+
 def run_all(ctx, prop, hist_oracle_fn, path_oracle_fn, sample_k, n_hist, n_bad, n_path):
     """shared driver of C01 and C02: fills ctx (violations, corr_breaks, counters)"""
     rng = ctx.rng
@@ -1769,6 +1945,8 @@ def run_all(ctx, prop, hist_oracle_fn, path_oracle_fn, sample_k, n_hist, n_bad, 
                 continue
             terms.append(term)
             meta.append(('hist', case, init, steps))
+        elif case['kind'] == 'multi':
+            process_multi(ctx, case, path_oracle_fn, terms, meta)
         else:
             process_path(ctx, case, path_oracle_fn, sample_k, terms, meta)
     if not ctx.replay:
@@ -1790,6 +1968,12 @@ def run_all(ctx, prop, hist_oracle_fn, path_oracle_fn, sample_k, n_hist, n_bad, 
     for m, line in zip(meta, lines):
         if m[0] == 'hist':
             nstates += compare_hist(ctx, m[1], m[2], m[3], line)
+        elif m[0] == 'multi_exc':
+            body = line.split('#', 1)[1]
+            got = parse_verdict(body) if body.startswith('E:') else 'ok'
+            if got != m[2]:
+                ctx.corr_break('corr:Elements.Multiband_amplifier.outcome',
+                               f'declared multiband amplifier: gnpy {m[2]}, model {got}', jcase(m[1]), impl=m[2], model=got)
         elif m[0] == 'elem':
             ok = check_elem_line(ctx, m[1], m[2], line, m[3], m[4], m[5])
             ctx.count('elem_replayed')
